@@ -30,10 +30,14 @@ Definition int_from_str_radix (lo hi : Z) (t : text) (radix : Z) : option Z :=
     end in
   match t with
   | [] => None
-  | [43%N] | [45%N] => None
-  | 43%N :: r => check (digits_value radix r 0)
-  | 45%N :: r => check (option_map Z.opp (digits_value radix r 0))
-  | _ => check (digits_value radix t 0)
+  | c :: r =>
+      if ((c =? 43) || (c =? 45))%N then
+        match r with
+        | [] => None                                   (* a lone sign *)
+        | _ => if (c =? 45)%N then check (option_map Z.opp (digits_value radix r 0))
+               else check (digits_value radix r 0)
+        end
+      else check (digits_value radix t 0)
   end.
 
 (* --------------------------------- BigUint / BigInt::from_str_radix (num-bigint) *)
@@ -50,24 +54,35 @@ Fixpoint big_digits (radix : Z) (l : text) (acc : Z) : option Z :=
   end.
 
 (* biguint/convert.rs:223-272 *)
+Definition strip_plus (t : text) : text :=      (* lines 226-231: one leading '+' unless followed by another *)
+  match t with
+  | c :: tail =>
+      if (c =? 43)%N then
+        match tail with
+        | c2 :: _ => if (c2 =? 43)%N then t else tail
+        | [] => tail
+        end
+      else t
+  | [] => t
+  end.
 Definition biguint_from_str_radix (t : text) (radix : Z) : option Z :=
-  let s := match t with
-           | 43%N :: tail => match tail with 43%N :: _ => t | _ => tail end
-           | _ => t
-           end in
-  match s with
+  match strip_plus t with
   | [] => None
-  | 95%N :: _ => None
-  | _ => big_digits radix s 0
+  | c :: _ => if (c =? 95)%N then None else big_digits radix (strip_plus t) 0
   end.
 
 (* bigint/convert.rs:29-41 *)
 Definition bigint_from_str_radix (t : text) (radix : Z) : option Z :=
   match t with
-  | 45%N :: tail =>
-      let s := match tail with 43%N :: _ => t | _ => tail end in
-      option_map Z.opp (biguint_from_str_radix s radix)
-  | _ => biguint_from_str_radix t radix
+  | c :: tail =>
+      if (c =? 45)%N then
+        let s := match tail with
+                 | c2 :: _ => if (c2 =? 43)%N then t else tail
+                 | [] => tail
+                 end in
+        option_map Z.opp (biguint_from_str_radix s radix)
+      else biguint_from_str_radix t radix
+  | [] => biguint_from_str_radix t radix
   end.
 
 (* ------------------------------------------------ Ratio<i32> (num-rational) *)
